@@ -3,11 +3,12 @@
    The samples are p_0 .. p_(m-1) (p_0 = the curve at theta = 1/n, NOT the start point),
    ds = [|p_1 - p_0|; ...; |p_(m-1) - p_(m-2)|]. *)
 From Coq Require Import ZArith QArith Qround Bool List.
+From GS Require Import gen.GenTables.
 Import ListNotations.
 Open Scope Q_scope.
 
-(* num_segments = max(2, int(10 * length / resolution)) *)
-Definition nsegments (len res : Q) : Z := Z.max 2 (Qfloor (10 * len / res)).
+(* num_segments = max(2, int(10 * length / resolution)): the two constants are read from the source on every run *)
+Definition nsegments (len res : Q) : Z := Z.max min_samples (Qfloor (oversampling * len / res)).
 
 (* the loop over distances[:-1]: mask entry i says whether sample i+1 is kept *)
 Fixpoint mask_loop (res remaining : Q) (ds : list Q) : list bool :=
@@ -16,7 +17,7 @@ Fixpoint mask_loop (res remaining : Q) (ds : list Q) : list bool :=
   | [_] => [true]                        (* the last distance is not looped over: last sample always kept *)
   | d :: ds' =>
       let r := remaining - d in
-      if Qlt_le_dec r (res / 10) then true :: mask_loop res res ds'
+      if Qlt_le_dec r (res / filter_tolerance_div) then true :: mask_loop res res ds'
       else false :: mask_loop res r ds'
   end.
 Definition keep_mask (res : Q) (ds : list Q) : list bool := mask_loop res res ds.
